@@ -439,7 +439,10 @@ inline model::MPath path(Ctx& c) {
     }
     if (c.cfg.close_vertices && r.chance(0.1)) {
         Pt last = p.spine.back();
-        p.spine.push_back(Pt{canon::rgrid(last.x) * 10 + (r.chance(0.5) ? 10 : 0), canon::rgrid(last.y) * 10 + 10});
+        bool diag = r.chance(0.5);
+        p.spine.push_back(Pt{canon::rgrid(last.x) * 10 + (diag ? 10 : 0), canon::rgrid(last.y) * 10 + 10});
+        // a diagonal last step (or an off-grid vertex before it) takes the path out of the axis-parallel class
+        if (diag || canon::rgrid(last.x) * 10 != last.x) manhattan = false;
     }
     p.hw = r.chance(0.05) ? 0 : ongrid(c, 1, 40) / (r.chance(0.2) ? 2 : 1) + frac(c);
     if (p.hw < 0) p.hw = -p.hw;
